@@ -140,6 +140,13 @@ def run_function_level(m, scratch, rng, rep, n_seq):
         expect = {}
         for sp in pre:
             expect[sp["id"]] = fnmod.n0(sp)
+        # a memoized failure (with a failing sub-call beneath it), for the recursive forgetting of exceptions
+        fail_spec = {"id": 100 * s + 80, "calls": [{"fn": "n1", "spec": {"id": 100 * s + 81, "raise": {"cls": "ValueError", "msg": "inner"}}, "catch": True}],
+                     "raise": {"cls": "ValueError", "msg": "outer"}}
+        try:
+            fnmod.n0(fail_spec)
+        except ValueError:
+            pass
         snap = fnlib.tree_snapshot(root)
         for variant in ("arg", "cfg_cache"):
             ro = open_readonly(m, variant, root, 4096)
@@ -185,12 +192,14 @@ def run_function_level(m, scratch, rng, rep, n_seq):
             import gc
             gc.collect()
             # forget through the function API must be rejected
-            for what in ("forget", "forget_all", "put_metadata"):
+            for what in ("forget", "forget_all", "forget_exceptions_recursively", "put_metadata"):
                 try:
                     if what == "forget":
                         fnmod.n0.forget(specs[0])
                     elif what == "forget_all":
                         fnmod.n0.forget_all()
+                    elif what == "forget_exceptions_recursively":
+                        fnmod.n0.memento(fail_spec).forget_exceptions_recursively()
                     else:
                         fnmod.n0.put_metadata("k", b"v", specs[0])
                     rep.violation("C19:%s-accepted-readonly" % what, "%s through a read-only store was not rejected" % what,
